@@ -346,6 +346,65 @@ theorem nonce_injective (P : EncParams) (hl : P.nonceLayout = Gen.nonceLayout) (
 /-- The layout the theorem is about is the regenerated one. -/
 example : EncParams.generated.nonceLayout = Gen.nonceLayout := rfl
 
+/-- The nonce of the regenerated layout, byte for byte (README.md: `nonce_prefix ‖ i ‖ last_segment`,
+    `i` a 32-bit big-endian counter): this is the value the function-level tie of `nonceForSegment`
+    (`harness/cmd/c02nonce`, driver op `nonce`) compares the real function with at segment numbers on
+    every byte boundary of the counter. -/
+theorem nonce_layout_explicit (np : Bytes) (i : Nat) (last : Bool) :
+    nonceFor EncParams.generated np i last
+      = fitTo 7 np ++ [UInt8.ofNat (i / 16777216 % 256), UInt8.ofNat (i / 65536 % 256),
+          UInt8.ofNat (i / 256 % 256), UInt8.ofNat (i % 256)] ++ [if last then 1 else 0] := by
+  have hl : EncParams.generated.nonceLayout = [.noncePrefix 7, .counterBE32, .lastFlag 1 0] := rfl
+  simp only [nonceFor, hl, List.flatMap_cons, List.flatMap_nil, noncePart, be32, List.append_nil]
+  cases last <;> simp
+
+example : nonceFor EncParams.generated [1, 2, 3, 4, 5, 6, 7] 65536 false = [1, 2, 3, 4, 5, 6, 7, 0, 1, 0, 0, 0] := by decide
+example : nonceFor EncParams.generated [1, 2, 3, 4, 5, 6, 7] 4294967295 true
+    = [1, 2, 3, 4, 5, 6, 7, 255, 255, 255, 255, 1] := by decide
+
+/-- The nonce is 12 bytes (what both AEADs require), whatever prefix the manifest carried. -/
+theorem nonce_length (np : Bytes) (i : Nat) (last : Bool) :
+    (nonceFor EncParams.generated np i last).length = 12 := by
+  rw [nonce_layout_explicit]
+  simp [fitTo]
+  omega
+
+/-- **Why the nonce has to determine the position.**  Whatever the layout: if two (position, flag)
+    pairs share a nonce, a lawful AEAD opens the segment sealed for one of them when it is presented
+    at the other — `DecryptSegment` hands out that segment's plaintext at the wrong place.  So the
+    per-run hypothesis `PresentedNoForgery` (only the honest segment of a position opens there) can
+    hold for documents with displaced segments only because of `nonce_injective`; a layout that
+    loses a counter byte makes positions `2^16` (or `2^8`, `2^24`) apart interchangeable. -/
+theorem colliding_nonce_opens_displaced (c : Crypto) (P : EncParams) (cph : Nat) (pk np : Bytes)
+    (lc : c.LawfulFor P pk np) (i j : Nat) (li lj : Bool)
+    (hcoll : nonceFor P np i li = nonceFor P np j lj) (d : Bytes) (hd : d ≠ []) :
+    ∃ ct, encryptSeg c P cph pk np d i li = .ok ct ∧ decryptSeg c P cph pk np ct j lj = .ok d := by
+  have hne : d.isEmpty = false := by cases d <;> simp_all
+  refine ⟨c.aseal cph pk (nonceFor P np i li) d, ?_, ?_⟩
+  · simp [encryptSeg, hne]
+  · have hlen := lc.seal_length cph i li d
+    have hct : (c.aseal cph pk (nonceFor P np i li) d).isEmpty = false := by
+      cases hx : c.aseal cph pk (nonceFor P np i li) d with
+      | nil =>
+        rw [hx] at hlen
+        have hpos : 0 < d.length := List.length_pos_iff.mpr hd
+        simp only [List.length_nil] at hlen
+        omega
+      | cons a t => rfl
+    simp only [decryptSeg, hct, Bool.false_eq_true, if_false]
+    rw [← hcoll, lc.open_seal cph i li d]
+
+/-- The hypothesis of `colliding_nonce_opens_displaced` is satisfiable exactly when the layout is not
+    the regenerated one: a layout without the counter gives every position the same nonce (witness
+    positions 0 and 65536), while under the regenerated layout `nonce_injective` excludes it. -/
+theorem counterless_layout_collides :
+    nonceFor { EncParams.generated with nonceLayout := [.noncePrefix 7, .lastFlag 1 0] } [1, 2, 3, 4, 5, 6, 7] 0 false
+      = nonceFor { EncParams.generated with nonceLayout := [.noncePrefix 7, .lastFlag 1 0] } [1, 2, 3, 4, 5, 6, 7] 65536 false := by
+  decide
+
+example : nonceFor EncParams.generated [1, 2, 3, 4, 5, 6, 7] 0 false
+    ≠ nonceFor EncParams.generated [1, 2, 3, 4, 5, 6, 7] 65536 false := by decide
+
 /-- The 32-bit counter never wraps: every call the loop makes carries an index `≤ maxSeg`
     (`2^32 − 1`), whatever the source delivers. -/
 theorem counter_no_wrap (segSize maxSeg : Nat) (hs : 0 < segSize) (fn : ProcFn) (r : Reader) :
